@@ -11,7 +11,7 @@ it are the two named hypotheses `EventsMonotone` and `ChunksUtf8`
 (`Lemmas/Chunker.lean`), which the harness checks on every real trace.
 
 Obligations of this file: `chunker_partition`, `chunker_lag_one`,
-`chunker_buffer_bounded`, `cutAfter_snoc`, `no_panic_chunker`, `no_panic_chunker_only_utf8`,
+`chunker_buffer_bounded`, `cutAfter_snoc`, `chunker_readahead_independent`, `no_panic_chunker`, `no_panic_chunker_only_utf8`,
 `chunker_panics_without_hypotheses`, `trim_never_drainRange`.
 
 Part 2 (second section): `Translator` and the framing of the three streaming
@@ -80,6 +80,23 @@ theorem chunker_lag_one (oc : Bool) (stream : List Nat) (evs : List Ev) (t : Boo
     obtain ⟨_, l2, l3, l4⟩ := released_lag stream evs 0 0 none s hs
     obtain ⟨r1, r2⟩ := relIdx_spec _ l3
     exact ⟨l2, l4, r1, r2⟩
+
+/-- How far the parser had read ahead when it returned each event does not
+matter: two traces with the same event kinds and offsets (both satisfying the
+hypotheses with their own read offsets) give the same documents at the same
+event indices. -/
+theorem chunker_readahead_independent (oc oc' : Bool) (stream : List Nat) (evs evs' : List Ev) (t : Bool)
+    (hsame : evs.map eraseRead = evs'.map eraseRead)
+    (hm : EventsMonotone stream evs) (hu : ChunksUtf8 stream evs)
+    (hm' : EventsMonotone stream evs') (hu' : ChunksUtf8 stream evs') :
+    (chunks oc stream evs t).emits = (chunks oc' stream evs' t).emits := by
+  have h := run_spec oc stream t hm.1 evs St.init 0 none (inv_init stream) trivial hm.2 hu
+  have h' := run_spec oc' stream t hm'.1 evs' St.init 0 none (inv_init stream) trivial hm'.2 hu'
+  unfold chunks
+  rw [h, h']
+  simp only [pendingEmit, St.init, List.nil_append]
+  show List.map (toEmit stream) (released stream 0 0 none evs) = List.map (toEmit stream) (released stream 0 0 none evs')
+  rw [← released_erase stream evs, ← released_erase stream evs', hsame]
 
 /-- After any prefix of the trace the capture buffer holds exactly the stream
 bytes from `captured_start_offset` up to what has been read, and
@@ -468,6 +485,7 @@ example : (Xt.Chunker.Reader.read ⟨[], 0⟩ [0, 0, 0, 0] (.ok 5 [1, 2, 3])) = 
 #print axioms chunker_partition
 #print axioms chunker_lag_one
 #print axioms chunker_buffer_bounded
+#print axioms chunker_readahead_independent
 #print axioms no_panic_chunker
 #print axioms no_panic_chunker_only_utf8
 #print axioms chunker_panics_without_hypotheses
